@@ -8,3 +8,56 @@
 #define OSMO_ASSERT(exp) \
 	do { if (!(exp)) { fprintf(stderr, "Assert failed %s %s:%d\n", #exp, __FILE__, __LINE__); abort(); } } while (0)
 #endif
+
+/* string-buffer helpers of newer libosmocore (osmocom/core/utils.h), as defined there */
+#ifndef OSMO_STRBUF_APPEND
+#include <stddef.h>
+#include <string.h>
+struct osmo_strbuf {
+	char *buf;
+	size_t len;
+	char *pos;
+	size_t chars_needed;
+};
+#define OSMO_STRBUF_REMAIN(STRBUF) \
+	((STRBUF).buf && ((STRBUF).pos - (STRBUF).buf) < (ptrdiff_t)(STRBUF).len ? \
+	 (STRBUF).len - (((STRBUF).pos ? (STRBUF).pos : (STRBUF).buf) - (STRBUF).buf) : 0)
+#define OSMO_STRBUF_APPEND(STRBUF, func, args...) do { \
+		if (!(STRBUF).pos) \
+			(STRBUF).pos = (STRBUF).buf; \
+		size_t _sb_remain = (STRBUF).buf ? (STRBUF).len - ((STRBUF).pos - (STRBUF).buf) : 0; \
+		int _sb_l = func((STRBUF).pos, _sb_remain, ##args); \
+		if (_sb_l < 0 || (size_t)_sb_l > _sb_remain) \
+			(STRBUF).pos = (STRBUF).buf + (STRBUF).len; \
+		else if ((STRBUF).pos) \
+			(STRBUF).pos += _sb_l; \
+		if (_sb_l > 0) \
+			(STRBUF).chars_needed += _sb_l; \
+	} while (0)
+#define OSMO_STRBUF_PRINTF(STRBUF, fmt, args...) OSMO_STRBUF_APPEND(STRBUF, snprintf, fmt, ##args)
+#define OSMO_STRBUF_APPEND_NOLEN(STRBUF, func, args...) do { \
+		if (!(STRBUF).pos) \
+			(STRBUF).pos = (STRBUF).buf; \
+		size_t _sb_remain = (STRBUF).buf ? (STRBUF).len - ((STRBUF).pos - (STRBUF).buf) : 0; \
+		if (_sb_remain) { \
+			func((STRBUF).pos, _sb_remain, ##args); \
+		} \
+		size_t _sb_l = (STRBUF).pos ? strnlen((STRBUF).pos, _sb_remain) : 0; \
+		if (_sb_l > _sb_remain) \
+			(STRBUF).pos = (STRBUF).buf + (STRBUF).len; \
+		else if ((STRBUF).pos) \
+			(STRBUF).pos += _sb_l; \
+		(STRBUF).chars_needed += _sb_l; \
+	} while (0)
+#define OSMO_STRBUF_CHAR_COUNT(STRBUF) ((STRBUF).chars_needed)
+#endif
+#ifndef OSMO_MAX
+#define OSMO_MAX(a, b) ((a) >= (b) ? (a) : (b))
+#endif
+#ifndef OSMO_MIN
+#define OSMO_MIN(a, b) ((a) >= (b) ? (b) : (a))
+#endif
+#ifndef OSMO_STRINGIFY
+#define OSMO_STRINGIFY(x) #x
+#define OSMO_STRINGIFY_VAL(x) OSMO_STRINGIFY(x)
+#endif
